@@ -662,6 +662,18 @@ def b_random_choice(ex, pos, kws, st):
     z = ex.seq_snap(seq, st)
     if h is None and isinstance(seq, T):
         h = ex.refine_hint(seq, st, ("str", "tuple", "list"))
+    if h is None and isinstance(seq, T):
+        out = []
+        for s, isstr in ex.branch(st, M.is_StrV(z)):
+            if isstr:
+                out += b_random_choice(ex, [T(z, "str")], kws, s)
+            else:
+                for s2, isseq in ex.branch(s, z3.And(M.is_Ref(z), z3.Or(ex.ct.sub_formula(M.rcls(z), "tuple"),
+                                                                       ex.ct.sub_formula(M.rcls(z), "list")))):
+                    if not isseq:
+                        raise Unsupported("random.choice on a non-sequence")
+                    out += b_random_choice(ex, [T(z, "list")], kws, s2)
+        return out
     if h == "str":
         n = z3.Length(M.sval(z))
     elif h in ("list", "tuple"):
@@ -675,10 +687,15 @@ def b_random_choice(ex, pos, kws, st):
         else:
             i = _rng_draw(ex, s, M.I, "idx")
             s.assume(0 <= i, i < n)
+            # named results: the element term must occur in a ground fact to trigger quantifiers
             if h == "str":
-                out.append((s, T(M.StrV(z3.SubString(M.sval(z), i, 1)), "str")))
+                ch = M.fresh("chosen", M.S)
+                s.assume(ch == z3.SubString(M.sval(z), i, 1), z3.Length(ch) == 1, z3.Contains(M.sval(z), ch))
+                out.append((s, T(M.StrV(ch), "str")))
             else:
-                out.append((s, T(M.lat(z, i), None)))
+                el = M.fresh("chosen")
+                s.assume(el == M.lat(z, i))
+                out.append((s, T(el, None)))
     return out
 
 
